@@ -105,8 +105,6 @@ def frame_spec(S_, h, n, sf, frame):
 c = contract(FC, "FrameCollector._process_frame", ["C02", "C06", "C07"])
 c.param("self", OBJ("FrameCollector")).param("var_lookup", DICT(OBJ("Variable", inv=False)))
 c.param("var_cache", OBJ("VariableCacheProvider"))
-c.req("table-is-not-the-frames-own-dict", lambda S_: And(S_.a.var_lookup != S_.old.f(S_.a.frame, "f_locals"),
-                                                          S_.a.var_lookup != S_.old.f(S_.a.frame, "f_globals")))
 c.param("frame", FRAME()).param("collect_vars", BOOL)
 c.req("table-and-cache-distinct", lambda S_: S_.old.f(S_.a.var_cache, "VariableCacheProvider.__cache") != S_.a.var_lookup)
 c.result = FRESH("StackFrame")
@@ -146,3 +144,78 @@ def _pf_log(S_, kind):
 
 
 c.exit_check(_pf_log)
+
+
+# =============================================================================== FrameCollector.collect
+def nth_back_axioms(S_, h, f0, k):
+    """Unfolding of the f_back chain at index k (ghost function NthBack)."""
+    return And(NthBack(f0, z3.IntVal(0)) == f0,
+               Implies(Val.is_VRef(NthBack(f0, k)), NthBack(f0, k + 1) == h.f(NthBack(f0, k), "f_back")))
+
+
+c = contract(FC, "FrameCollector.collect", ["C02", "C06"])
+c.param("self", OBJ("FrameCollector")).param("var_lookup", DICT(OBJ("Variable", inv=False)))
+c.param("var_cache", OBJ("VariableCacheProvider"))
+c.req("table-and-cache-distinct", lambda S_: S_.old.f(S_.a.var_cache, "VariableCacheProvider.__cache") != S_.a.var_lookup)
+c.result = TUPLE(VAL, VAL)
+c.host_ops_exc_base = "Exception"
+c.logged = "collect"
+c.modifies = lambda S_: [("all",)]
+c.sig_props = ["C06"]
+c.protects = lambda S_: {"fields": ["f_back", "f_code", "f_lineno", "f_locals", "f_globals", "co_filename", "co_name",
+                                    "_FrameCollector__frame", "_FrameCollector__source",
+                                    "_VariableCacheProvider__cache"], "lists": [], "dicts": []}
+
+
+def _chain_def(S_):
+    """Definition of the ghost function NthBack (the f_back chain of the paused frame)."""
+    h = S_.old
+    f0 = h.f(S_.a.self, "FrameCollector.__frame")
+    k = z3.Int("k!chain")
+    return And(NthBack(f0, z3.IntVal(0)) == f0,
+               z3.ForAll([k], Implies(And(k >= 0, Val.is_VRef(NthBack(f0, k))),
+                                      NthBack(f0, k + 1) == h.f(NthBack(f0, k), "f_back"))))
+
+
+c.ens("returns-the-table-it-was-given", lambda S_: S_.new.lget(S_.result, 1) == S_.a.var_lookup, props=["C02", "C07"])
+
+
+def _collect_inv(L):
+    h = L.now()
+    frames, cur = L.local("collected_frames"), L.local("current_frame")
+    return And(frames == L.pre_local("collected_frames"),
+               Or(Val.is_VNone(cur), And(Val.is_VRef(cur), h.typeof(cur) == L.cid("frame"),
+                                         Val.r(cur) > 0, Val.r(cur) < ALLOC_BASE)))
+
+
+def _collect_body(L):
+    """One step of the stack walk: the current frame is processed exactly once (variables requested with this
+    frame's index, on the table and cache handed in), its StackFrame is appended, and the walk moves to the
+    caller (f_back).  By induction over the steps the collected frames are the real call stack in order."""
+    log = L.iter_log()
+    pf = [e for e in log if e.label == "_process_frame"]
+    scv = [e for e in log if e.label == "should_collect_vars"]
+    apps = [e for e in log if e.label == "list.append"]
+    if len(pf) != 1 or len(scv) != 1:
+        return [("one-frame-per-step", z3.BoolVal(False))]
+    h0, h1 = L.at_iteration_start(), L.now()
+    frames = L.local("collected_frames")
+    n0 = h0.llen(frames)
+    cur0 = L.iter_pre_locals["current_frame"]
+    return [("one-frame-per-step", And(pf[0].args[3] == cur0,
+                                       pf[0].args[4] == scv[0].result, scv[0].args[1] == Val.VInt(n0),
+                                       pf[0].args[1] == L.local("var_lookup"), pf[0].args[2] == L.local("var_cache"))),
+            ("frame-appended-then-caller", And(
+                z3.BoolVal(len(apps) == 1 and log.index(apps[0]) > log.index(pf[0])) if apps else z3.BoolVal(False),
+                apps[0].args[0] == frames if apps else z3.BoolVal(False),
+                apps[0].args[1] == pf[0].result if apps else z3.BoolVal(False),
+                L.local("current_frame") == h0.f(cur0, "f_back")))]
+
+
+c.loop("loop#1", invariant=_collect_inv, body_ensures=_collect_body,
+       modifies=lambda L: [("all",)])
+c.ens("returns-the-frames-it-collected", lambda S_: And(S_.is_fresh(S_.new.lget(S_.result, 0), "list"),
+                                                        S_.elems(S_.new.lget(S_.result, 0), OBJ("StackFrame", inv=False))),
+      props=["C02"])
+
+
